@@ -178,6 +178,11 @@ def case_term(case, out, rt=False):
         # the driver routine is itself a task played with a quant, woken, re-scheduled by every yield
         acts.append('APlay %d%%N %s %s' % (DRV, out_as_num(fp['now']), quant_term(case['start_quant'])))
         desc.append('first play quant=%s -> %s' % (case['start_quant'], fp))
+    for j, st0 in zip(case.get('extra', []), out.get('extra', [])):
+        acts.append('ANew %s %s %s %s %s' % (now0, num_term(j['tempo']), num_term(j['beats']),
+                                            secs if rt else ('None' if j['seconds'] is None else '(Some %s)' % num_term(j['seconds'])),
+                                            state_term(st0)))
+        desc.append('one more clock TempoClock(%s) -> %s' % (j, st0))
     flat = [a for st in case['steps'] for a in st['acts']]
     first_dwake = True
     for ev in out['events']:
@@ -200,6 +205,10 @@ def case_term(case, out, rt=False):
             desc.append('routine %s yields %s' % (rid, ev))
             continue
         act = flat[ev['k']]
+        on = 0
+        if act[0] == 'on':
+            on, act = act[1], act[2]
+        n_before = len(acts)
         if act[0] == 'sleep':
             continue
         if act[0] == 'set':
@@ -228,10 +237,16 @@ def case_term(case, out, rt=False):
                 acts.append('APlayNextBar %d%%N %s' % (ev['id'], now))
             else:
                 acts.append('APlay %d%%N %s %s' % (ev['id'], now, quant_term(q)))
-        desc.append('%s -> %s' % (act, ev))
+        if on:
+            acts[n_before:] = ['AOn %d%%nat (%s)' % (on, a) for a in acts[n_before:]]
+        desc.append('%s%s -> %s' % ('on clock %d: ' % on if on else '', act, ev))
     term = 'session_bad %s %s %s %s %s %s [%s]' % ('true' if rt else 'false', now0, num_term(i['tempo']), num_term(i['beats']), secs,
                                              state_term(out['init']), ';\n  '.join(acts))
     return term, desc
+
+
+def inner(a):
+    return a[2] if a[0] == 'on' else a
 
 
 def incomplete(case, out):
@@ -245,7 +260,7 @@ def incomplete(case, out):
     want = {}
     for e in done:
         if 'id' in e:
-            a = flat[e['k']]
+            a = inner(flat[e['k']])
             want[e['id']] = 1 + (len(a[2]) if len(a) > 2 else 0)
     woke = {}
     for e in out['events']:
@@ -422,6 +437,14 @@ def gen_case(rng, malformed=False, nsteps=None, rt=False):
     else:
         sq = gen_quantarg(rng, malformed and rng.random() < 0.3)
     case = {'t0': nm(rng, dy(rng, 3, 0, 6), allow_int=False), 'init': init, 'start_quant': sq, 'steps': []}
+    # more TempoClock instances in the same process: tasks pending on one must not be moved by changes of another
+    extra = []
+    if rng.random() < 0.5:
+        for _ in range(rng.randint(1, 2)):
+            extra.append({'tempo': nm(rng, rng.choice(RT_TEMPI if rt else TEMPI[:8])),
+                          'beats': nm(rng, dy(rng, 2, -8, 16)) if rng.random() < 0.6 else None,
+                          'seconds': nm(rng, dy(rng, 2, 0, 8)) if rng.random() < 0.5 else None})
+    case['extra'] = extra
     n = nsteps if nsteps is not None else (rng.randint(2, 3) if rt else rng.randint(1, 4))
     for k in range(n):
         acts = []
@@ -430,11 +453,14 @@ def gen_case(rng, malformed=False, nsteps=None, rt=False):
             if rt and rng.random() < 0.25:
                 acts.append(['sleep', rng.choice([20, 40, 60])])    # the routine runs LATE from here on
             if r < 0.4:
-                acts.append(gen_set(rng, malformed, rt))
+                a = gen_set(rng, malformed, rt)
             elif r < 0.52:
-                acts.append(gen_play(rng, malformed, rt))
+                a = gen_play(rng, malformed, rt)
             else:
-                acts.append(gen_ask(rng, malformed, rt))
+                a = gen_ask(rng, malformed, rt)
+            if extra and rng.random() < 0.35 and not (a[0] == 'set' and a[1] == 'meter'):
+                a = ['on', rng.randint(1, len(extra)), a]      # made from the driver routine on another clock
+            acts.append(a)
         y = Fraction(rng.randint(0, 4), 8) if rt else Fraction(rng.randint(0, 24), 8)
         case['steps'].append({'acts': acts, 'yield': nm(rng, y)})
     case['steps'][-1]['yield'] = None
@@ -471,6 +497,7 @@ def falsify(rng, case, prob=0.4):
         if st.get('yield') is not None and rng.random() < prob / 2:
             st['yield'] = z(stored=True)
         for act in st['acts']:
+            act = inner(act)
             if act[0] == 'set':
                 if rng.random() < (prob if act[1] != 'meter' else prob / 3):
                     act[2] = z(stored=True)
@@ -497,7 +524,7 @@ def is_nontrivial(case, out):
     if not isinstance(out.get('init'), list):
         return False
     flat = [a for st in case['steps'] for a in st['acts']]
-    evs = [(flat[e['k']], e) for e in out['events'] if 'k' in e]
+    evs = [(inner(flat[e['k']]), e) for e in out['events'] if 'k' in e]
     okset = any(a[0] == 'set' and 'raised' not in e for a, e in evs)
     grid = False
     for a, e in evs:
@@ -519,7 +546,7 @@ def changes_before_wake(case, out):
             pending[e['wake']] = 0
         elif 'id' in e:
             pending[e['id']] = 0
-        elif flat[e['k']][0] == 'set' and 'raised' not in e:
+        elif inner(flat[e['k']])[0] == 'set' and 'raised' not in e:
             for k in pending:
                 pending[k] += 1
     return n
@@ -551,6 +578,9 @@ def tally(c, tagged, out, mode):
                 c.count(mode + (' driver wake-up' if 'dwake' in e else ' yield of the driver' if 'dyield' in e else ' yield of a played routine'))
             else:
                 a = flat[e['k']]
+                if a[0] == 'on':
+                    c.count(mode + ' act on another clock')
+                    a = a[2]
                 key = mode + ' ' + a[0] + ':' + (str(a[1]) if a[0] in ('set', 'ask') else '')
                 c.count(key + ('!raised' if 'raised' in e else ''))
             c.evaluations += 1
